@@ -61,6 +61,31 @@ CHECKS = {
         text="Grammar tree vs an independent precedence-climbing parser on all 324 ordered operator pairs, unary/cast/postfix matrices, token-class probes, random nesting <= 6 and corpus texts; determinism across fresh processes with different PYTHONHASHSEED, fresh/reused parser objects and parse order.",
         note="Trusted: verif/cparse.py as statement of C's expression/statement structure and of the documented operand token patterns.",
         technique="reference-parser comparison + cross-process determinism monitor"),
+    "C07": dict(level="exploration", ref="DESIGN.md section 4 C07, appendix C",
+        text="One program per operand spelling (328: register class x letter x single/pair x V/N, explicit registers with/without _NEW, 25 aliases, 8 immediate letters, 8 loads, 4 stores, jumps, PC): "
+             "structural monitor on the handles/flags/casts the emitted effect resolves vs an independent operand table, and value monitor (IL vs C with independent values in old and new banks).",
+        note=DIFF_NOTE + " Lenient point: plain alias/explicit registers that are read and assigned start with equal banks.", technique="structural trace monitor against an independent operand table + differential execution over register banks"),
+    "C13": dict(level="exploration", ref="DESIGN.md section 4 C13",
+        text="Attribute list of every part compared with the set recomputed from the part's own text by the independent parser: compiled first in a pristine fork, and again in long-lived children after random histories "
+             "(failing inputs interleaved, two compilers, both entry points) with an invariant hook that all flags incl. the written-predicates list are reset after every compile event.",
+        note="Trusted: verif/cparse.py attribute rules (text-level reading of the property).", technique="reference-model monitor + invariant at a hook under random histories"),
+    "C14": dict(level="fault_enumeration", ref="DESIGN.md section 4 C14",
+        text="Reference = item compiled first in a pristine fork; subject = same item after recorded histories in long-lived processes: a failing input of each of four kinds at EVERY position of short histories (enumerated), "
+             "random long histories with failures, injected failpoints in rule callbacks, four entry points, two compilers. Compared: acceptance, text modulo temporaries/comments, attributes; state monitor after every event.",
+        note="Trusted: renaming of h_tmp* by first appearance; group-flag drift of shared types is informational only.", technique="history/fault metamorphic monitor with injected failpoints and state invariants"),
+    "C15": dict(level="exploration", ref="DESIGN.md section 4 C15",
+        text="Must-raise monitor: 21 untranslated constructs x 9 statement / 11 expression positions; conservation monitor on accepted programs (side-effect inventory by the independent parser vs operations in the emitted effect, created-vs-declared effects through the add_op hook, every effect sequenced exactly once); differential execution of the accepted programs.",
+        note=DIFF_NOTE, technique="must-raise monitor + conservation (created = sequenced + discarded) monitor + differential execution"),
+    "C18": dict(level="fault_enumeration", ref="DESIGN.md section 4 C18",
+        text="Real Parser.parse runs in child processes with patched pool size (1..16) and an instrumented per-task function (pid/start/end log, injected delays so that completion order is a random permutation), inputs with broken behaviours of 7 kinds at random positions; "
+             "each run's returned dict and task log are checked against the sequential in-process parse (keys, order, per-part trees, error names, exactly-once execution).",
+        note="Trusted: tree equality through the digest of Tree.pretty(); worker death is out of scope (watchdog => inconclusive).", technique="offline history checker over recorded pool runs with injected delays and faulty inputs"),
+    "C19": dict(level="exploration", ref="DESIGN.md section 4 C19",
+        text="Contracts on split_resolved_shortcode / split_compounds / load_insn_behavior against an independent bracket- and string-aware splitter: all 2181 bundled lines (72 compounds), 20000/300000 generated lines incl. malformed variants, loader on a scratch file.",
+        note="Trusted: the independent splitter's definition of a well-formed line; raising is always allowed.", technique="runtime contracts against an independent reference implementation"),
+    "C20": dict(level="exploration", ref="DESIGN.md section 4 C20",
+        text="gcc -E as reference preprocessor: bundled resolved file vs gcc output token-wise for all 2181 instructions; contract on replace_do_while_0 vs a brace-matching stripper on generated bodies; patch-merge obligations; the real pipeline run in a scratch git clone on the bundled sources (must reproduce the bundled files) and on generated macro/patch/shortcode sets (must equal gcc -E under the independently merged macro set).",
+        note="Trusted: gcc -E -P -undef -nostdinc as 'standard C preprocessing'; token-wise comparison; #line lines ignored.", technique="differential against gcc -E + contracts + pipeline runs in scratch clones"),
 }
 
 NOT_YET = {}
